@@ -19,7 +19,7 @@ type RSchema struct {
 
 	pattern       string
 	compileOnce   sync.ErrOnce
-	generatorOnce sync.ErrOnceWithValue[*reggen.Generator]
+	exampleOnce   sync.ErrOnceWithValue[[]byte]
 	generatorSeed int64
 }
 
@@ -76,20 +76,25 @@ func (s *RSchema) Example() ([]byte, error) {
 	return s.generateExample()
 }
 
+// generateExample builds the example once: the generator is not safe for
+// concurrent use and advances on every call, so asking again (or from several
+// goroutines) would give other examples than the first call did.
 func (s *RSchema) generateExample() ([]byte, error) {
-	g, err := s.generatorOnce.Do(func() (*reggen.Generator, error) {
+	ex, err := s.exampleOnce.Do(func() ([]byte, error) {
 		g, err := reggen.NewGenerator(s.pattern)
 		if err != nil {
 			return nil, err
 		}
 		g.SetSeed(s.generatorSeed)
-		return g, nil
+		return []byte(g.Generate(1)), nil
 	})
 	if err != nil {
 		return nil, err
 	}
 
-	return []byte(g.Generate(1)), nil
+	res := make([]byte, len(ex))
+	copy(res, ex)
+	return res, nil
 }
 
 func (*RSchema) AddType(string, schema.Schema) error {
